@@ -119,9 +119,9 @@ class Recorder:
         self.children.append(list(sd._children))
 
 
-def make_source(tree, path, out):
+def make_source(tree, path, out, rates=None, prep=None, form='keyword'):
     """append the source of tree's function (children first); returns its name"""
-    kids = [make_source(w, path + [i], out) for i, w in enumerate(tree['wraps'])]
+    kids = [make_source(w, path + [i], out, rates, prep, form) for i, w in enumerate(tree['wraps'])]
     name = 'f_' + '_'.join(map(str, path))
     parts = []
     seen_star = False
@@ -147,6 +147,11 @@ def make_source(tree, path, out):
     for i, w in enumerate(tree['wraps']):
         key = '_'.join(map(str, path + [i]))
         call = 'SynthDef.wrap(%s, rates=RATES[%r], prepend=PREP[%r])' % (kids[i], key, key)
+        if form == 'positional':
+            call = 'SynthDef.wrap(%s, RATES[%r], PREP[%r])' % (kids[i], key, key)
+        elif form == 'omit_none' and rates is not None:
+            call = 'SynthDef.wrap(%s%s%s)' % (kids[i], '' if rates[key] is None else ', rates=RATES[%r]' % key,
+                                              '' if prep[key] is None else ', prepend=PREP[%r]' % key)
         if w.get('fail') in ('caught_sig', 'caught_body'):
             # the body survives a failing wrap and goes on building
             body.append('    try:\n        %s\n        _R.caught.append(None)\n    except (ValueError, TypeError, C04Body) as e:\n        _R.caught.append(type(e).__name__)' % call)
@@ -282,6 +287,20 @@ def install_capture():
     addr_t.send_msg = cap
 
 
+class Poison(dict):
+    """a specs dictionary that has a spec (default 77777) for EVERY name"""
+    _spec = ControlSpec(0, 99999, default=77777)
+
+    def __contains__(self, k):
+        return True
+
+    def __getitem__(self, k):
+        return dict.get(self, k, self._spec)
+
+    def get(self, k, d=None):
+        return dict.get(self, k, self._spec)
+
+
 def make_spec(e):
     """a real ControlSpec of the generated shape (ordered / inverted / empty range, any warp, step, default or None)"""
     if len(e) < 3:
@@ -311,9 +330,9 @@ def context_state():
 def run_case(idx, case):
     res = {'err': 0}
     src = []
-    top = make_source(case['tree'], [], src)
     rates, prep = {}, {}
     collect(case['tree'], [], rates, prep)
+    top = make_source(case['tree'], [], src, rates, prep, case.get('arg_form', 'keyword'))
     rec = Recorder()
     scope = {'SynthDef': SynthDef, 'DC': DC, 'Out': Out, '_R': rec, 'RATES': rates, 'PREP': prep,
              'C04Body': C04Body, 'C04Base': C04Base}
@@ -338,7 +357,16 @@ def run_case(idx, case):
     before = snapshot()
     res['before'] = before
     try:
-        sd = SynthDef(case['name'], func, rates=rates[''], prepend=prep[''], variants=variants, metadata=md)
+        # the four optional arguments in the generated passing form: given by keyword, given
+        # positionally, explicit None, or OMITTED (then the library's own defaults are used)
+        opt = [('rates', rates['']), ('prepend', prep['']), ('variants', variants), ('metadata', md)]
+        form = case.get('arg_form', 'keyword')
+        if form == 'positional':
+            sd = SynthDef(case['name'], func, *[v for _, v in opt])
+        elif form == 'omit_none':
+            sd = SynthDef(case['name'], func, **{k: v for k, v in opt if v is not None})
+        else:
+            sd = SynthDef(case['name'], func, **dict(opt))
     except BaseException as e:
         res['err'] = err_code(e)
         res['errtext'] = '%s: %s' % (type(e).__name__, e)
@@ -401,6 +429,15 @@ def run_case(idx, case):
     res['args_mutated'] = snapshot() != before
     if res['args_mutated']:
         res['after'] = snapshot()
+    # every build must depend on its own arguments only: afterwards the PUBLIC dictionaries of this
+    # definition are edited (a spec for every possible parameter name, a variant valid for any
+    # definition); a later definition in this process must not see any of it
+    try:
+        if not isinstance(sd.metadata.get('specs'), Poison):
+            sd.metadata['specs'] = Poison(sd.metadata.get('specs') or {})
+        sd.variants['zzpoison'] = {}
+    except Exception as e:
+        res['poison_error'] = '%s: %s' % (type(e).__name__, e)
     # as_bytes() keeps a memoryview exported from a BytesIO; release it explicitly, otherwise the
     # cyclic collector may free the BytesIO first ("deallocated BytesIO object has exported buffers")
     try:
